@@ -258,6 +258,21 @@ def run(idx: ProgramIndex, rep: Report, tier: str, selftest: bool = True):
 
     factory_rule_for(idx, rep, PROP, "C01.D", in_kernel)
 
+    # ---------------------------------------------------------------- W
+    # a product kernel that writes into its operand (or into a tensor the operator holds) returns the right product once:
+    # a sum of products, a second product, or to_dense afterwards no longer agree with the dense matrix
+    from .c13 import write_findings_for
+
+    rep.rule("C01.W", "product / densification kernels write owned storage only", floor=100)
+    write_findings_for(idx, rep, PROP, "C01.W", lambda f: f.function.split(".")[-1] in kern_methods or f.function.startswith("utils."),
+                       prefix="the product no longer agrees with the dense matrix when the operand is used again: ")
+
+    # ---------------------------------------------------------------- O
+    from .side import check_sides
+
+    rep.rule("C01.O", "inside the matmul family the factor built from self stands on the operator's side of the product", floor=15)
+    check_sides(idx, rep, PROP, "C01.O")
+
     # ---------------------------------------------------------------- Q
     # argument-less squeeze() removes EVERY size-1 dimension: on a tensor whose extent is data dependent (kept rows of a
     # mask, one right-hand side, a batch of one) the operator changes shape exactly in the size-1 case
